@@ -7,10 +7,12 @@ from harness.common import core
 from harness.common.core import rat
 
 ID = "C03"
-LEAN_TARGETS = ["ChmpyVerif.Props.C03"]
+LEAN_TARGETS = ["ChmpyVerif.Props.C03", "ChmpyVerif.Props.C03Box"]
 T = "ChmpyVerif.Props.C03."
 THEOREMS = [T + n for n in ("cauchy3", "ball_in_frac_box", "cell_index_bounds", "ball_cell_in_bounds", "one_over_len_le_star",
                             "sortAbs_perm", "cells_mem_iff", "cells_nodup", "slab_enumerates_once", "atoms_in_radius_exact")]
+# several centres (molecule, atom group, all sites): the accumulated block is sufficient; omitting an extreme layer cannot be right
+THEOREMS += [T + n for n in ("union_box_sufficient", "foldl_min_le", "le_foldl_max", "accumulated_box_sufficient", "box_necessary_lo", "box_necessary_hi")]
 TRUSTED = [
     "hand model Model/Slab.lean: cell enumeration, row layout (exact, over ℤ; the theorems are about these very definitions); the box from the radius "
     "and the distance filter are executed in Float by the driver and mirrored over ℝ in the theorem statements",
@@ -182,7 +184,7 @@ def check_air(c, radius, origin_cart):
         if int(r["element"][k]) != int(u["element"][a]) or int(r["asym_atom"][k]) != int(u["asym_atom"][a]):
             return "atoms_in_radius: element / parent site of a returned atom is not that of its unit-cell atom"
         p = (np.asarray(u["frac_pos"][a]) + np.array(cell)) @ np.asarray(uc.direct)
-        if not np.allclose(p, r["cart_pos"][k], atol=1e-8) or abs(np.linalg.norm(p - origin_cart) - ref[(a, cell)]) > 1e-8:
+        if not np.allclose(p, r["cart_pos"][k], rtol=0, atol=1e-8) or abs(np.linalg.norm(p - origin_cart) - ref[(a, cell)]) > 1e-8:
             return "atoms_in_radius: returned position is not that periodic image"
     return None
 
@@ -251,7 +253,7 @@ def check_environment(c, radius, group=None):
         centres = np.asarray(mol.positions)[group]
         (cel, cpos), (els, pos) = c.atom_group_surroundings(group, radius=radius)
         name = f"atom_group_surroundings({group})"
-        if not np.allclose(cpos, centres) or list(cel) != [int(mol.atomic_numbers[g]) for g in group]:
+        if not np.allclose(cpos, centres, rtol=0, atol=1e-9) or list(cel) != [int(mol.atomic_numbers[g]) for g in group]:
             return name + ": central atoms are not the requested atoms"
     ref, margin, _ = brute(c, centres, radius)
     if margin < 1e-6:
@@ -385,7 +387,51 @@ def correspond(ctx):
         ib, _, ir = impl.partition(" | ")
         if mb.strip() != ib.strip() or sorted(mr.split()) != sorted(ir.split()):
             ctx.disagree("atoms_in_radius", inp, m[:200], impl[:200])
-    ctx.count("correspondence_lines", n + len(lines))
+    # the molecule / atom-group / per-site queries: the block of cells they hand to slab() must reach every cell layer that a ball of
+    # the given radius about one of the centre atoms reaches (hypothesis of `ball_in_slab`, per axis: lower <= floor(min(f - r s)),
+    # upper >= floor(max(f + r s)) with s = (|a*|, |b*|, |c*|) from the inverse cell matrix)
+    nb = 0
+    for _ in range(120 if not ctx.thorough else 1200):
+        kind, c = random_crystal(rng, molecular=True)
+        if c is None:
+            continue
+        radius = rng.uniform(2.0, 12.0)
+        D = np.asarray(c.unit_cell.direct, dtype=float)
+        star = np.linalg.norm(np.linalg.inv(D), axis=0)
+        rec = []
+        orig = cc.Crystal.slab
+
+        def spy2(self, bounds=((-1, -1, -1), (1, 1, 1))):
+            rec.append(bounds)
+            return orig(self, bounds=bounds)
+        mols = c.symmetry_unique_molecules()
+        queries = [("molecule_environment", lambda m=m: c.molecule_environment(m, radius=radius), np.asarray(m.positions)) for m in mols]
+        g = sorted(rng.sample(range(len(mols[0])), min(len(mols[0]), rng.randint(1, 2))))
+        queries.append((f"atom_group_surroundings({g})", lambda: c.atom_group_surroundings(g, radius=radius), np.asarray(mols[0].positions)[g]))
+        queries.append(("atomic_surroundings", lambda: c.atomic_surroundings(radius=radius), c.to_cartesian(c.asymmetric_unit.positions)))
+        for name, call, centres in queries:
+            del rec[:]
+            cc.Crystal.slab = spy2
+            try:
+                call()
+            except Exception:  # noqa   (reported by the oracle)
+                continue
+            finally:
+                cc.Crystal.slab = orig
+            if not rec:
+                ctx.tie_broken("search box", f"Crystal.{name} no longer builds its neighbourhood from slab()")
+                continue
+            fc = centres @ np.linalg.inv(D)
+            need_lo = np.floor((fc - radius * star).min(axis=0) + 1e-9).astype(int)
+            need_hi = np.floor((fc + radius * star).max(axis=0) - 1e-9).astype(int)
+            lo = np.min([np.asarray(b[0], dtype=float) for b in rec], axis=0)
+            hi = np.max([np.asarray(b[1], dtype=float) for b in rec], axis=0)
+            nb += 1
+            if np.any(lo > need_lo) or np.any(hi < need_hi):
+                ctx.disagree("search box", {"query": name, "kind": kind, "radius": radius, "centres": np.round(fc, 4).tolist()},
+                             f"cells {need_lo.tolist()}..{need_hi.tolist()} are reached by a ball of the radius about a centre atom",
+                             f"slab bounds {lo.astype(int).tolist()}..{hi.astype(int).tolist()}")
+    ctx.count("correspondence_lines", n + len(lines) + nb)
 
 
 def judge_exact(seed):
